@@ -499,6 +499,37 @@ def run(chk):
     r10.ob("Method_AST_Node: `def C::C` builds the constructor wrapper, any other name a method wrapper bound to class C", okm and set(kinds) == {"ctor", "method"}, mfn.where, strip_targs(mfn["q"]), "; ".join(whym) or str(kinds))
     r10.require(8, "obligations")
 
+    # ------------------------------------------------------------------ R3.11 copying a container copies its values
+    r11 = chk.rule("R3.11", "the copy operation registered for a built-in container of values gives every element an object of its own: a Boxed_Value copy is a handle copy, so a container of "
+                            "Boxed_Value must be copied element by element (clone), not by the std container's copy constructor",
+                   "value copies on `var x = y`: after `var b = a` for a Vector, Map or Pair, assigning to an element of b does not change a")
+    bv = prog.records.get("chaiscript::Boxed_Value")
+    r11.anchor(bv is not None, "record Boxed_Value")
+    shares = any("shared_ptr<" in prog.T(bv["unit"], fl["t"]) for fl in bv["fields"])
+    bvcopy = [x for x in prog.fns if x.get("cls") == "chaiscript::Boxed_Value" and x["kind"] == "ctor" and len(x.get("params") or []) == 1 and
+              "const chaiscript::Boxed_Value &" in prog.T(x, x["params"][0]["t"])]
+    handle_copy = shares and all(x.get("implicit") or x.get("defaulted") or not x.get("body") or not list(walk(x["body"]))[1:] for x in bvcopy)
+    r11.note("Boxed_Value holds its object through a shared_ptr and its copy constructor is the defaulted one: copying a Boxed_Value shares the object (%s)" % handle_copy)
+    ccs = [x for x in prog.fns if strip_targs(x["q"]) == "chaiscript::bootstrap::copy_constructor" and x["tk"] == "inst"]
+    r11.anchor(len(ccs) >= 4, "instantiations of bootstrap::copy_constructor (found %d)" % len(ccs))
+    seen11 = set()
+    for x in ccs:
+        targ = x["q"][len("chaiscript::bootstrap::copy_constructor<"):-1]
+        if "chaiscript::Boxed_Value" not in targ or "Bidir_Range" in targ:
+            continue
+        kindname = re.match(r"(const )?std::(\w+)<", targ)
+        label = {"vector": "Vector", "map": "Map", "pair": "Pair" if targ.startswith("std::pair<chaiscript::Boxed_Value") else "Map_Pair"}.get(kindname.group(2) if kindname else "", targ[:40])
+        if label in seen11:
+            continue
+        seen11.add(label)
+        chk.touched([x])
+        elementwise = any(n.get("k") == "call" and n.get("name") in ("clone", "clone_if_necessary", "transform", "for_each") for n in walk(x["body"])) or any(n.get("k") == "lambda" for n in walk(x["body"]))
+        std_copy = any(n.get("k") == "call" and n.get("name") == "constructor" for n in walk(x["body"]))
+        r11.ob("%s: the registered copy gives every element an object of its own" % label, (not handle_copy) or (elementwise and not std_copy), x.where, strip_targs(x["q"]) + "<" + label + ">",
+               "copy_constructor<%s> registers the std container's own copy constructor: the new container holds the same Boxed_Value handles, so `var b = a; b[0] = 9` (or `b.second = ..`) "
+               "also changes a" % label)
+    r11.require(3, "containers of values")
+
     # ------------------------------------------------------------------ R3.4
     r4 = chk.rule("R3.4", "block-structured constructs evaluate their children inside a scope of their own",
                   "block-scoped variables with shadowing; nothing declared inside a block, loop, case or try is visible after it")
